@@ -5,10 +5,11 @@ ROOT = os.path.dirname(os.path.abspath(__file__))
 sys.path.insert(0, ROOT)
 import props as P
 ids = [json.loads(l)["id"] for l in open(os.path.join(ROOT, "properties.jsonl"))]
+ready = set(l.strip() for l in open(os.path.join(ROOT, "ready.txt")) if l.strip())
 hooks_commits = [l.strip() for l in open(os.path.join(ROOT, "hooks_commits.txt")) if l.strip()]
 checks = []
 for pid in ids:
-    if pid not in P.PROPS or P.PROPS[pid].get("unclaimed"):
+    if pid not in P.PROPS or pid not in ready:
         continue
     s = P.PROPS[pid]
     checks.append({
@@ -23,7 +24,7 @@ for pid in ids:
         "technique": s.get("technique", "Coq 8.16 theorems over a Gallina model + differential correspondence evaluated in Coq (vm_compute) against the Go code"),
     })
 na = [{"property_id": pid, "reason": P.NOT_APPLICABLE.get(pid, "not claimed: check not built yet (work in progress; see DESIGN.md section 10)")}
-      for pid in ids if pid not in P.PROPS or P.PROPS[pid].get("unclaimed")]
+      for pid in ids if pid not in P.PROPS or pid not in ready]
 m = {
     "version": 1,
     "setup_cmd": "./setup.sh",
